@@ -36,6 +36,8 @@ def tables(bs):
         'cbc_iv': 'self._cbc.g_iv == bytes(%s)' % BS,
         'k1': 'self._k1 == spec.aead1.omac_k1(%s, %s, %s)' % (FID, KEY, BS),
         'k2': 'self._k2 == spec.aead1.omac_k2(%s, %s, %s)' % (FID, KEY, BS),
+        'lens': 'conj(len(self._k1) == %s, len(self._k2) == %s, len(self._last_ct) == %s)' % (BS, BS, BS),
+        'last_pt_len': '(len(%s) >= %s) ==> len(self._last_pt) == %s' % (FED, BS, BS),
         'last_ct': 'self._last_ct == ' + CH(FED),
         # (lazy ==>: the slices are then taken under len(g_fed) >= bs and need no clamping)
         'last_pt': '(len(%s) >= %s) ==> self._last_pt == spec.aead1.bx(%s, %s[len(%s) - %s:], %s)' % (FED, BS, CH('%s[:len(%s) - %s]' % (FED, FED, BS)), FED, FED, BS, BS),
@@ -80,11 +82,12 @@ def registry(bs=16, state=None, buf='bytes|memoryview'):
 
     # ------------------------------------------------------------------ _update: whole blocks into the CBC object
     chain_inv = ['self._cbc.g_bs == ' + BS, 'len(%s) %% %s == 0' % (FED, BS), 'len(self._cbc.g_iv) == ' + BS, INV['inv_last_ct'], INV['inv_last_pt'],
+                 'len(self._last_ct) == ' + BS,
                  'conj(self._cbc.g_fid == %s, self._cbc.g_key == %s)' % (FID, KEY)]
     reg.add(Contract(CM + '._update', params={'data_block': 'bytes|bytearray|memoryview'},
                      requires=chain_inv + ['len(data_block) % ' + BS + ' == 0'], raises={},
                      ensures={'fed': '%s == old(%s) + bytes(data_block)' % (FED, FED), 'last_ct': INV['inv_last_ct'], 'last_pt': INV['inv_last_pt'],
-                              'last_ct_len': 'len(self._last_ct) == ' + BS},
+                              'last_ct_len': 'len(self._last_ct) == ' + BS, 'last_pt_len': INV['inv_last_pt_len']},
                      lemmas={'exit': {
                          'suffix': 'impl(len(data_block) > 0, %s[len(%s) - %s:] == bytes(data_block)[len(data_block) - %s:])' % (FED, FED, BS, BS),
                          'prefix_one': 'impl(len(data_block) == %s, %s[:len(%s) - %s] == old(%s))' % (BS, FED, FED, BS, FED)}},
